@@ -497,10 +497,20 @@ static void run_op(const std::vector<std::string> &w, const std::string &, out &
         else if (op == "ccheck_rev") val = std::to_string(dlist_check_reversed(pa, b));
         else if (op == "clist") { std::vector<int> v; struct dlist_head *it; dlist_for_each(it, pa) v.push_back(cid(it)); val = ids(v); }
         else if (op == "clist_rev") { std::vector<int> v; struct dlist_head *it; dlist_for_each_reverse(it, pa) v.push_back(cid(it)); val = ids(v); }
+        else if (op == "ccorrect_strict")
+        {
+            // probe of finding C01-is-correct-length-only: "correct" should imply that neighbours point back
+            val = dlist_is_correct(pa) ? "1" : "0";
+            std::vector<int> nx, pv; c_succ(nx, pv);
+            bool wf = true;
+            for (size_t i = 0; i < nx.size(); i++) if (pv[nx[i]] != (int)i || nx[pv[i]] != (int)i) wf = false;
+            if (val == "1" && !wf) o.fail("dlist_is_correct accepts a ring whose neighbours do not point back");
+        }
         else if (op == "cpoke_next") { pa->next = pb; corrupt = true; o.tag("corrupt"); }
         else if (op == "cpoke_prev") { pa->prev = pb; corrupt = true; o.tag("corrupt"); }
         else val = "bad-op";
-        if (corrupt || cn.size() > 16) oracle_walks(o, op, a, b, val);
+        if (op == "ccorrect_strict") {}
+        else if (corrupt || cn.size() > 16) oracle_walks(o, op, a, b, val);
         else oracle_c(o);
     }
     // ---------------- objects with two link members
@@ -1380,6 +1390,10 @@ static void gen(rng &r, const std::string &tier)
     for (int i = 0; i < cases / 2; i++) gen_s_case(r, (int)r.range(3, 9), 80);
     for (int i = 0; i < cases / 2; i++) gen_h_case(r, (int)r.range(1, 8), (int)r.range(1, 3), 80);
     gen_corrupt_cases(r, th ? 300 : 60);
+    // probes of the two recorded findings (each is the last op of its case)
+    emit("reset r 4"); emit("cpoke_prev 0 1"); emit("cpoke_prev 1 2"); emit("cpoke_prev 2 3"); emit("cpoke_prev 3 0");
+    emit("@F:C01-is-correct-length-only ccorrect_strict 0");
+    emit("reset s 4"); emit("sadd 2 0"); emit("@F:C01-slist-move-front-foreign smove_front 2 1");
     for (int i = 0; i < cases / 2; i++) gen_t_case(r, (int)r.range(1, 6), th ? 200 : 120);
 }
 
